@@ -105,6 +105,13 @@ def run(ctx):
         ctx.case(("rot", M.tobytes(), m_steps), m_steps % n != 0)
         if np.abs(R - want).max() > 1e-10 * (np.abs(M).max() + 1) * n:
             ctx.violate(f"rotate_matrix by {m_steps} grid steps is not the matrix with both indices shifted", {**cj, "steps": m_steps}, {"kind": "rotate"})
+        # the dict version rotates every matrix of the dict like rotate_matrix does (and leaves its argument alone)
+        Mc_keep = np.array(Mc, copy=True)
+        rd = scat.rotate_matrices({"LL": Mc, "TT": np.ascontiguousarray(Mc.T)}, 2 * np.pi * m_steps / n)
+        if set(rd) != {"LL", "TT"} or np.abs(rd["LL"] - want).max() > 1e-10 * (np.abs(M).max() + 1) * n \
+                or np.abs(rd["TT"] - np.roll(np.roll(M.T, m_steps, axis=0), m_steps, axis=1)).max() > 1e-10 * (np.abs(M).max() + 1) * n \
+                or not np.array_equal(Mc, Mc_keep):
+            ctx.violate(f"rotate_matrices by {m_steps} grid steps does not shift both indices of every matrix of the dict (or modifies its argument)", {**cj, "steps": m_steps}, {"kind": "rotate"})
         lines.append(f"rotshift {n} {qmat(M.real)} {m_steps}")
         meta.append(("rot", want.real, cj, 1.0))
     # ---- representation: M[j, i] = S(inc_i, out_j)
@@ -166,6 +173,35 @@ def run(ctx):
         ctx.case(("file", n, tuple(keys), len(fr)), True)
         if not ok:
             ctx.violate("matrices stored to and loaded from a file are not returned unchanged", cj, {"kind": "file_roundtrip"})
+        # the other two doors to the same file
+        import arim
+        mat_ = arim.Material(6300.0, 3100.0, density=2700.0, state_of_matter="solid")
+        for door, ld in (("load_scat", lambda: ioscat.load_scat(str(fn))), ("load_scat(format='matlab')", lambda: ioscat.load_scat(str(fn), format="matlab")),
+                         ("scat_factory('file')", lambda: scat.scat_factory("file", mat_, str(fn)))):
+            try:
+                l2 = ld()
+                ok2 = np.array_equal(l2.frequencies, fr) and set(l2.orig_matrices) == set(keys) and all(np.array_equal(l2.orig_matrices[k], mm[k]) for k in keys)
+            except Exception as e:
+                ok2 = False
+                door += f" raised {type(e).__name__}"
+            ctx.count("file_door")
+            if not ok2:
+                ctx.violate(f"{door}: matrices stored to a file are not returned unchanged", cj, {"kind": "file_roundtrip"})
+        # a single sampled frequency: the data are returned at every frequency (scalar or 1-element `frequencies`)
+        import warnings
+        k0 = keys[0]
+        for fspec in (float(fr[0]), np.array([fr[0]])):
+            with warnings.catch_warnings():
+                warnings.simplefilter("ignore")
+                one = scat.ScatFromData.from_dict(fspec, {k: mm[k][:1] for k in keys})
+                r1 = one(q_inc, q_out, float(fr[0]))
+                r2 = one(q_inc, q_out, float(fr[0]) * 1.7)
+            i = [int(np.argmin(np.abs(th - x))) for x in q_inc]
+            j = [int(np.argmin(np.abs(th - x))) for x in q_out]
+            wantv = mm[k0][0][j, i]
+            ctx.count("single_frequency_data")
+            if np.abs(r1[k0] - wantv).max() > 1e-9 * np.abs(mm[k0]).max() or np.abs(r2[k0] - wantv).max() > 1e-9 * np.abs(mm[k0]).max():
+                ctx.violate("ScatFromData with a single sampled frequency does not return its data", cj, {"kind": "scat_from_data"})
     answers = ctx.drive(lines) if ctx.lean.driver_ok and not ctx.oracle_only else []
     for (what, val, cj, scale), a in zip(meta, answers):
         if not a.startswith("ok "):
